@@ -68,6 +68,11 @@ def cse(expressions, cse_concat=True, cse_in_brackets=False, verbose=False):
         if axes_used_only_in_this_subexpression:
             common_exprs.add(str_expr)
 
+    # Use a deterministic order (independent of the hash seed): longer subexpressions first, then order of first occurrence. Overlapping
+    # candidates (e.g. "a b" and "a b c") are replaced greedily below, so the order decides which of them is eliminated.
+    common_exprs = sorted(
+        (k for k in str_to_common_expr.keys() if k in common_exprs), key=lambda k: -max(len(exprlist) for exprlist in str_to_common_expr[k])
+    )
     common_exprs = [str_to_common_expr[k] for k in common_exprs]  # list of common_expr(=list of exprlist)
 
     if verbose:
